@@ -712,55 +712,79 @@ func checkC17(c *Ctx) {
 	// it for the end of the text only when the cursor really is at the end - a NUL character inside the source is an
 	// error, not a silent end of the program
 	if g := u.ssaFunc("pkg/syntax/zh", "NextToken"); g != nil {
-		eofCalls := u.callsNamed(g, "pkg/syntax/zh.parseEOF")
-		okNul := len(eofCalls) >= 1
-		for _, cs := range eofCalls {
-			guarded := false
-			for _, b := range g.Blocks {
-				ifi, isIf := b.Instrs[len(b.Instrs)-1].(*ssa.If)
-				if !isIf {
-					continue
-				}
-				bo, isB := ifi.Cond.(*ssa.BinOp)
-				if !isB {
-					continue
-				}
-				isLenSrc := func(v ssa.Value) bool {
-					call, ok := v.(*ssa.Call)
-					if !ok {
-						return false
-					}
-					bi, ok := call.Call.Value.(*ssa.Builtin)
-					return ok && bi.Name() == "len" && strings.HasSuffix(containerFieldOf(call.Call.Args[0]), ".Source")
-				}
-				isCursor := func(v ssa.Value) bool {
-					call, ok := v.(*ssa.Call)
-					if ok && u.callName(call) == "pkg/syntax.Lexer.GetCursor" {
-						return true
-					}
-					_, isF := fieldLoad(v, "cursor")
-					return isF
-				}
-				var atEnd *ssa.BasicBlock
-				switch {
-				case bo.Op == token.LSS && isCursor(bo.X) && isLenSrc(bo.Y):
-					atEnd = b.Succs[1]
-				case bo.Op == token.GEQ && isCursor(bo.X) && isLenSrc(bo.Y):
-					atEnd = b.Succs[0]
-				case bo.Op == token.GTR && isLenSrc(bo.X) && isCursor(bo.Y):
-					atEnd = b.Succs[1]
-				case bo.Op == token.LEQ && isLenSrc(bo.X) && isCursor(bo.Y):
-					atEnd = b.Succs[0]
-				}
-				if atEnd != nil && edgeDominates(b, atEnd, cs.Block()) {
-					guarded = true
-				}
+		isLenSrc := func(v ssa.Value) bool {
+			call, ok := v.(*ssa.Call)
+			if !ok {
+				return false
 			}
-			if !guarded {
-				okNul = false
+			bi, ok := call.Call.Value.(*ssa.Builtin)
+			return ok && bi.Name() == "len" && strings.HasSuffix(containerFieldOf(call.Call.Args[0]), ".Source")
+		}
+		isCursor := func(v ssa.Value) bool {
+			call, ok := v.(*ssa.Call)
+			if ok && u.callName(call) == "pkg/syntax.Lexer.GetCursor" {
+				return true
+			}
+			_, isF := fieldLoad(v, "cursor")
+			return isF
+		}
+		// edges on which the cursor is known to stand at (or beyond) the end of the source
+		var atEndEdges []cfgEdge
+		for _, b := range g.Blocks {
+			ifi, isIf := b.Instrs[len(b.Instrs)-1].(*ssa.If)
+			if !isIf {
+				continue
+			}
+			bo, isB := ifi.Cond.(*ssa.BinOp)
+			if !isB {
+				continue
+			}
+			switch {
+			case bo.Op == token.LSS && isCursor(bo.X) && isLenSrc(bo.Y):
+				atEndEdges = append(atEndEdges, cfgEdge{b, b.Succs[1]})
+			case bo.Op == token.GEQ && isCursor(bo.X) && isLenSrc(bo.Y):
+				atEndEdges = append(atEndEdges, cfgEdge{b, b.Succs[0]})
+			case bo.Op == token.GTR && isLenSrc(bo.X) && isCursor(bo.Y):
+				atEndEdges = append(atEndEdges, cfgEdge{b, b.Succs[1]})
+			case bo.Op == token.LEQ && isLenSrc(bo.X) && isCursor(bo.Y):
+				atEndEdges = append(atEndEdges, cfgEdge{b, b.Succs[0]})
 			}
 		}
-		R.check(okNul, "C17.nul", "pkg/syntax/zh.NextToken:end-of-input", u.pos(g.Pos()), "the end-of-input token is produced only when the cursor has reached the end of the source", "the token reader takes the character NUL for the end of input wherever it stands: everything after a NUL in a source file is silently ignored and the truncated program is executed")
+		// the branch taken when the current character is RuneEOF (0): every normal answer given there (the end-of-input
+		// token, directly or through parseEOF) lies behind an at-end edge
+		nEOF, okNul := 0, true
+		tests := nilTests(g)
+		for _, b := range g.Blocks {
+			ifi, isIf := b.Instrs[len(b.Instrs)-1].(*ssa.If)
+			if !isIf {
+				continue
+			}
+			bo, isB := ifi.Cond.(*ssa.BinOp)
+			if !isB || bo.Op != token.EQL {
+				continue
+			}
+			k, isK := bo.Y.(*ssa.Const)
+			cur, isCall := bo.X.(*ssa.Call)
+			if !isK || !isCall || k.Value == nil || k.Value.Kind() != constant.Int || k.Int64() != 0 || u.callName(cur) != "pkg/syntax.Lexer.GetCurrentChar" {
+				continue
+			}
+			nEOF++
+			for _, rr := range returnsReachable(b.Succs[0], 0, nil) {
+				if !edgeDominates(b, b.Succs[0], rr.Ret.Block()) || !normalReturn(g, rr.Ret, tests) {
+					continue
+				}
+				guarded := false
+				for _, e := range atEndEdges {
+					if edgeDominates(e.from, e.to, rr.Ret.Block()) {
+						guarded = true
+					}
+				}
+				if !guarded {
+					okNul = false
+				}
+			}
+		}
+		R.check(okNul && nEOF >= 1, "C17.nul", "pkg/syntax/zh.NextToken:end-of-input", u.pos(g.Pos()), "the end-of-input token is produced only when the cursor has reached the end of the source", "the token reader takes the character NUL for the end of input wherever it stands: everything after a NUL in a source file is silently ignored and the truncated program is executed")
 	} else {
 		R.lost("C17.nul", "pkg/syntax/zh.NextToken")
 	}
